@@ -131,7 +131,8 @@ def scenario(draw, n_contests=(1, 2), kinds=None, audit_types=("CARD_COMPARISON"
     n = draw(st.integers(*n_cards))
     any_one = any(s["audit_type"] == "ONEAUDIT" for s in specs.values())
     # batch labels are arbitrary objects: strings, integers (a batch may well be numbered 0) or an empty string
-    labels = draw(st.sampled_from([["p1", "p2", "p3"], ["p1", "p2", "p3"], [0, 1, 2], ["", "a", "b"]]))
+    # (... or happen to coincide with a card identifier: labels and identifiers are different name spaces)
+    labels = draw(st.sampled_from([["p1", "p2", "p3"], ["p1", "p2", "p3"], [0, 1, 2], ["", "a", "b"], ["1-0-0", "1-0-1", "p3"]]))
     pooled = sorted(draw(st.sets(st.sampled_from(labels)))) if (with_pools and any_one) else []
     cards = []
     for i in range(n):
